@@ -14,9 +14,12 @@ pub struct MockObj<'a> {
 pub struct MockGraph {
     pub size: Vec<usize>,
     pub links: Vec<Vec<(usize, usize)>>, // (to, width in bytes)
+    pub ff: Vec<bool>,                   // payload is all 0xFF (looks like an unresolved offset)
+    pub offs_first: Vec<bool>,           // offsets precede the payload
 }
 impl MockGraph {
     pub fn from_json(v: &Value) -> Self {
+        let n = v["size"].as_array().unwrap().len();
         MockGraph {
             size: v["size"].as_array().unwrap().iter().map(|x| x.as_u64().unwrap() as usize).collect(),
             links: v["links"]
@@ -25,10 +28,21 @@ impl MockGraph {
                 .iter()
                 .map(|ls| ls.as_array().unwrap().iter().map(|l| (l["to"].as_u64().unwrap() as usize, l["width"].as_u64().unwrap() as usize)).collect())
                 .collect(),
+            ff: v.get("ff").and_then(|x| x.as_array()).map(|a| a.iter().map(|b| b.as_bool().unwrap()).collect()).unwrap_or_else(|| vec![false; n]),
+            offs_first: v.get("offsFirst").and_then(|x| x.as_array()).map(|a| a.iter().map(|b| b.as_bool().unwrap()).collect()).unwrap_or_else(|| vec![false; n]),
         }
     }
     pub fn fill(&self, node: usize) -> u8 {
-        0xA0u8.wrapping_add(node as u8)
+        if self.ff[node - 1] { 0xFF } else { 0xA0u8.wrapping_add(node as u8) }
+    }
+    /// the payload bytes of a node
+    pub fn payload(&self, node: usize) -> Vec<u8> {
+        let mut payload = vec![self.fill(node); self.size[node - 1]];
+        if payload.len() >= 2 && !self.ff[node - 1] {
+            payload[0] = 0x5A;
+            payload[1] = node as u8;
+        }
+        payload
     }
     pub fn total_size(&self, node: usize) -> usize {
         self.size[node - 1] + self.links[node - 1].iter().map(|l| l.1).sum::<usize>()
@@ -37,15 +51,15 @@ impl MockGraph {
 impl FontWrite for MockObj<'_> {
     fn write_into(&self, writer: &mut TableWriter) {
         let g = self.graph;
-        // payload: fill byte, with the node number in the first two bytes when there is room
-        let mut payload = vec![g.fill(self.node); g.size[self.node - 1]];
-        if payload.len() >= 2 {
-            payload[0] = 0x5A;
-            payload[1] = self.node as u8;
+        let payload = g.payload(self.node);
+        if !g.offs_first[self.node - 1] {
+            writer.write_slice(&payload);
         }
-        writer.write_slice(&payload);
         for (to, width) in &g.links[self.node - 1] {
             writer.write_offset(&MockObj { graph: g, node: *to }, *width);
+        }
+        if g.offs_first[self.node - 1] {
+            writer.write_slice(&payload);
         }
     }
 }
@@ -72,30 +86,23 @@ pub fn observe(g: &MockGraph, bytes: &[u8]) -> Value {
         }
         copies.push((node, pos));
         let size = g.size[node - 1];
-        match bytes.get(pos..pos + size) {
+        let links_len: usize = g.links[node - 1].iter().map(|l| l.1).sum();
+        let (payload_at, offs_at) = if g.offs_first[node - 1] { (pos + links_len, pos) } else { (pos, pos + size) };
+        match bytes.get(payload_at..payload_at + size) {
             None => {
                 bytes_ok = false;
                 why = format!("object {node} at {pos} runs past the end of the output");
                 continue;
             }
             Some(p) => {
-                let ok = p.iter().enumerate().all(|(i, b)| {
-                    if size >= 2 && i == 0 {
-                        *b == 0x5A
-                    } else if size >= 2 && i == 1 {
-                        *b == node as u8
-                    } else {
-                        *b == g.fill(node)
-                    }
-                });
-                if !ok {
+                if p != g.payload(node).as_slice() {
                     bytes_ok = false;
                     why = format!("bytes at {pos} are not the payload of object {node}");
                     continue;
                 }
             }
         }
-        let mut at = pos + size;
+        let mut at = offs_at;
         for (i, (to, width)) in g.links[node - 1].iter().enumerate() {
             match read_off(bytes, at, *width) {
                 None => {
